@@ -35,7 +35,7 @@ enum {
     B_N
 };
 const uint32_t RECYCLE[] = {0, 300, 700, 1000};
-constexpr int NVARIANTS = 12;
+constexpr int NVARIANTS = 13;
 
 template <int LS, int IS, size_t BIN, typename K, typename V>
 struct Traits : tlx::btree_default_traits<K, V> {
@@ -48,6 +48,15 @@ struct Traits : tlx::btree_default_traits<K, V> {
 constexpr size_t LIN = 1u << 30, BINS = 0;   // linear search (huge threshold) / binary search (threshold 0)
 
 struct TLess { bool operator()(const sim::Tracked& a, const sim::Tracked& b) const { return a.k() < b.k(); } };
+// a comparator whose behaviour is run-time state: the trees are built with DirLess(true), a default-constructed
+// one orders the other way round
+struct DirLess {
+    bool desc;
+    explicit DirLess(bool d = false) : desc(d) {}
+    bool operator()(int a, int b) const { return desc ? a > b : a < b; }
+};
+template <class K> K make_cmp(K*) { return K(); }
+inline DirLess make_cmp(DirLess*) { return DirLess(true); }
 
 // adaptors: how to build a value from (key, payload) and read its key
 inline int ikey(int k) { return k; }
@@ -77,7 +86,9 @@ void run(const Workload& w, Result& res, bool tracked) {
     const int universe = int(4 + sim::modn(sim::cfg_at(w, C_UNIVERSE), 397));
     // each tree slot gets its own allocator instance (instances compare unequal) or all share one
     const bool arenas = sim::modn(sim::cfg_at(w, C_ARENAS), 2) == 1;
-    auto fresh = [&](int slot) { return std::make_unique<C>(typename C::allocator_type(arenas ? slot + 1 : 0)); };
+    auto fresh = [&](int slot) {
+        return std::make_unique<C>(make_cmp(static_cast<typename C::key_compare*>(nullptr)), typename C::allocator_type(arenas ? slot + 1 : 0));
+    };
     if (arenas) res.probe("distinct_allocator_instances");
     static const char* names[] = {"insert", "insert_hint", "insert_range", "erase_key", "erase_one", "erase_iter", "clear", "copy_ctor",
                                   "assign", "swap", "bulk_load", "destroy", "construct", "insert_alias", "erase_key_alias", "erase_one_alias", "move_ctor", "move_assign"};
@@ -266,6 +277,7 @@ void execute(const Workload& w, Result& res) {
     case 7: run<tlx::btree_set<int, std::greater<int>, Traits<4, 5, BINS, int, int>, sim::Alloc<int> >, false, false, true>(w, res, false); break;
     case 8: run<tlx::btree_multiset<T, TLess, Traits<5, 7, LIN, T, T>, sim::Alloc<T> >, false, true, false>(w, res, true); break;
     case 9: run<tlx::btree_map<int, int, std::less<int>, Traits<7, 4, LIN, int, PII>, sim::Alloc<PII> >, true, false, false>(w, res, false); break;
+    case 12: run<tlx::btree_multiset<int, DirLess, Traits<4, 5, LIN, int, int>, sim::Alloc<int> >, false, true, true>(w, res, false); break;
     case 10: run<tlx::BTree<int, int, KeyOfInt, std::less<int>, Traits<5, 5, BINS, int, int>, true, sim::Alloc<int> >, false, true, false>(w, res, false); break;
     default: run<tlx::BTree<T, T, KeyOfT, TLess, Traits<4, 6, LIN, T, T>, false, sim::Alloc<T> >, false, false, false>(w, res, true); break;
     }
